@@ -381,6 +381,8 @@ def generate(run_seed, deep=False):
                                ("lganm.new", "gen.dag_avg_deg", "gen.dag_full", "gen.intervention_targets",
                                 "utils.split_data", "utils.add_edges", "utils.remove_edges") and not r.get("posseed"))
     np_star_faults(st["np_star"], ops)
+    hash_twin_variation(st["hashtwin"], ops)
+    warnings_variation(st["warnings"], ops)
     return cfg, ops
 
 
@@ -442,6 +444,75 @@ def errstate_variation(f, ops):
                 rec["args"][kind] = [[int(tgt * p), [0.0, 1e-200]]]
     for pos, state in plan[:k]:
         ops.insert(int(pos * (len(ops) + 1)), {"c": 0, "op": "np.seterr", "state": state})
+
+
+def hash_twin_variation(f, ops):
+    """Values that are different and hash alike (CPython: hash(-1) == hash(-2), ints and floats): in one run in
+    twelve one LGANM.sample signature on a long-lived model gets -2 (or -1) as an intervention value, and the same
+    call with the other value in that place is made on that model right before one of its evaluations.  Anything that
+    remembers distributions under a hash of their parameters hands the signature the twin's distribution.  Decided by
+    a stream of its own, after generation."""
+    r, pick, tgt, which = f.random(), f.random(), f.random(), f.random()
+    kind, form, val = f.choice(["do", "do", "shift"]), f.choice(["pair", "pair", "scalar"]), f.choice([-1, -2, -1.0, -2.0])
+    var = f.choice([0.5, 1.0, 2.0])
+    seed_same = f.random() < 0.7
+    sigs = sorted({rec["sig"] for rec in ops if "sig" in rec and rec.get("api") == "lganm.sample"
+                   and rec.get("m", {}).get("id") and not rec.get("burst")})
+    if r >= 0.085 or not sigs:
+        return
+    sig = sigs[int(pick * len(sigs))]
+    idx = [i for i, rec in enumerate(ops) if rec.get("sig") == sig]
+    twin = type(val)(-3 - val)                     # -1 <-> -2
+    p = spec_p(ops[idx[0]]["m"])
+    t = int(tgt * p)
+
+    def value(v):
+        return [[t, v]] if (form == "scalar" and kind == "do") else [[t, [v, var]]]
+
+    for i in idx:
+        ops[i]["args"][kind] = value(val)
+    at = idx[1 + int(which * (len(idx) - 1))] if len(idx) > 1 else idx[0]
+    rec = copy.deepcopy(ops[at])
+    for key in ("sig", "nd", "between_nd", "relayout", "reordered", "posseed", "npints", "burst", "via"):
+        rec.pop(key, None)
+    rec["m"].pop("via", None)
+    rec["args"][kind] = value(twin)
+    rec["on_shared"] = True
+    rec["hash_twin"] = True
+    rec["c"] = 0
+    if not seed_same:
+        rec["seed"] = None
+    ops.insert(at, rec)
+
+
+def warnings_variation(f, ops):
+    """In one run in twelve the application changes its warnings filters one to three times during the session
+    (ignore RuntimeWarning / every warning, "once", "default", resetwarnings), and one NormalDistribution.sample signature
+    gets a covariance that is symmetric but not positive semi-definite (numpy warns about it, and samples): code
+    that looks at the warnings numpy emitted takes another path when they are filtered out.  Decided by a stream
+    of its own, after generation."""
+    from .canon import dec
+    r, k, pick = f.random(), f.randint(1, 3), f.random()
+    plan = [(f.random(), f.choice([{"action": "ignore", "category": "RuntimeWarning"}, {"action": "ignore"},
+                                   {"action": "ignore", "category": "RuntimeWarning"}, {"action": "once"},
+                                   {"action": "default", "category": "RuntimeWarning"}, None])) for _ in range(3)]
+    if r >= 0.085:
+        return
+    sigs = sorted({rec["sig"] for rec in ops if "sig" in rec and rec.get("api") == "nd.sample"})
+    if sigs:
+        sig = sigs[int(pick * len(sigs))]
+        m0 = [rec["m"] for rec in ops if rec.get("sig") == sig][0]
+        mid = m0.get("id")
+        cov = np.array(dec(m0["spec"]["cov"]), dtype=float, copy=True)
+        if cov.ndim == 2 and len(cov) >= 2:
+            cov[0, 1] = cov[1, 0] = 2.0 * max(abs(cov[0, 0]), abs(cov[1, 1])) + 1.0
+            for rec in ops:
+                m = rec.get("m")
+                if isinstance(m, dict) and m.get("type") == "nd" and \
+                        ((mid is not None and m.get("id") == mid) or rec.get("sig") == sig):
+                    m["spec"]["cov"] = enc(cov)
+    for pos, state in plan[:k]:
+        ops.insert(int(pos * (len(ops) + 1)), {"c": 0, "op": "py.warnings", "state": state})
 
 
 def npints_variation(f, ops):
@@ -601,6 +672,8 @@ def execute(sempler, run_seed, ops, pristine_budget=4):
                 out = w.call(invoke(w, rec), arm=rec.get("arm"))
                 od = outcome_digest(*out)
                 w.apis[rec["api"]] += 1
+                if rec.get("hash_twin"):
+                    w.probes["filler.hash_twin_of_a_signature(-1 / -2)"] += 1
                 if rec.get("fail") == "callable.raise" and out[0] == "exc" \
                         and type(out[1]).__name__ == "InjectedCallableError":
                     w.faults["callable.raise"] += 1
@@ -882,7 +955,7 @@ REQUIRED_PROBES = ["pair.nontrivial", "pair.seed0", "pair.sep.reseed", "pair.sep
                                                      "nd:gen.dag_avg_deg", "pair.default_seed_argument_omitted",
                                                      "nd.separated_by_an_unseeded_library_call"]
 
-REQUIRED_PROBES = REQUIRED_PROBES + ["model.parameters_read_in_another_order", "pair.under_different_error_states_of_the_caller", "call.integers_as_numpy_scalars", "thread.calls_outside_main_thread", "fault.died_in_a_numpy_call(np.*)", "seed.given_as_Generator", "seed.given_as_BitGenerator"]
+REQUIRED_PROBES = REQUIRED_PROBES + ["model.parameters_read_in_another_order", "pair.under_different_error_states_of_the_caller", "call.integers_as_numpy_scalars", "thread.calls_outside_main_thread", "fault.died_in_a_numpy_call(np.*)", "seed.given_as_Generator", "seed.given_as_BitGenerator", "filler.hash_twin_of_a_signature(-1 / -2)", "caller.changed_warnings_filters"]
 
 
 def simplify(op):
